@@ -631,7 +631,7 @@ Plan gen_c14(uint64_t seed, uint64_t run, const std::string& cfg) {
   Rng g(mix64(base, tag64("gen"))); Rng e(mix64(base, tag64("env"))); Rng s(mix64(base, tag64("sched"))); Rng fr(mix64(base, tag64("fault")));
   pl.env = e.next() | 1; pl.sched_seed = s.next() | 1;
   bool z = cfg.find('Z') != std::string::npos;
-  int nt = (int)g.range(2, run % 5 == 0 ? 6 : 4); pl.ntasks = nt;
+  int nt = (int)g.range(2, run % 50 == 7 ? 12 : (run % 5 == 0 ? 6 : 4)); pl.ntasks = nt;
   int shared = -1;
   if (g.chance(0.5)) {
     shared = 100;
